@@ -19,15 +19,15 @@ var (
 )
 
 type SchemaOpts struct {
-	MaxDepth   int  // nesting depth of blocks (root = 0)
-	Wide       bool // allow wide bodies (>= 13 entries)
-	Huge       bool // allow populations around the candidate limit (95..130)
-	NoHooks    bool
-	Paths      []string // names of paths that may be referenced by path targets
-	NoAnyAttr  bool
-	LitOnly    bool // only constraints expressible in both syntaxes (C19)
-	AddrPct    int  // percent chance that an attribute is addressable (default 25)
-	DepBoost   bool // make dependent bodies (label keys, attribute keys, second level) much more likely
+	MaxDepth  int  // nesting depth of blocks (root = 0)
+	Wide      bool // allow wide bodies (>= 13 entries)
+	Huge      bool // allow populations around the candidate limit (95..130)
+	NoHooks   bool
+	Paths     []string // names of paths that may be referenced by path targets
+	NoAnyAttr bool
+	LitOnly   bool // only constraints expressible in both syntaxes (C19)
+	AddrPct   int  // percent chance that an attribute is addressable (default 25)
+	DepBoost  bool // make dependent bodies (label keys, attribute keys, second level) much more likely
 }
 
 func (g G) Type(depth int) cty.Type {
